@@ -18,6 +18,12 @@ CHECKS["C02"] = dict(text="The real evaluate_matched_instance decision filter, E
 CHECKS["C14"] = dict(text="Every feasible path of the real MaximizeMergeMatching loop (real sorted order, label map, new_combination_score incl. the np.isin union selection) is explored with the score of every (reference, set of predictions) a free real and the metric direction concrete per case; 'matched only if a single prediction meets the threshold', 'merged only if strictly better in the preferred direction' and 'final score at least as good and meets the threshold' are SMT obligations per path.",
              note="set scores are free reals (over-approximation); counterexamples are realised as voxel counts (second query) or re-found by a guided search and replayed on the real matcher; grid bound",
              ref="DESIGN.md section 4 / C14")
+CHECKS["C09"] = dict(text="Layer A: the real _calc_overlapping_labels, _get_paired_crop/_get_bbox_nd, the processing-pair label bookkeeping and the semantic dtype cast run once per canonical geometry class with the label VALUES as free ordered integers in [1, min(2^w, 2^24)) for each unsigned dtype (signed for semantic input); 'kernel equals its label-generic specification' is a QF_NIA query with explicit mod 2^w wherever NumPy 1.26 wraps.",
+             note="small-scope argument for <= 3 voxels (DESIGN 3); NumPy promotion/wrap model validated by replaying every path witness on the real package; labels >= 2^24 outside the claim",
+             ref="DESIGN.md section 4 / C09")
+CHECKS["C04"] = dict(text="Layer A: the real map_instance_labels/_map_labels (np.arange with symbolic length as a lazily indexed array with in-bounds decisions), InstanceLabelMap and MatchedInstancePair construction run for every label map over <= 3 predictions x <= 2 references with free label values per dtype; reference unchanged, foreground unchanged, partition preserved, matched label carried, fresh labels distinct from every reference label are QF_NIA obligations.",
+             note="one voxel per label; > 3 unmatched predictions outside the symbolic run (overflow is reachable with one); labels >= 2^24 outside the claim",
+             ref="DESIGN.md section 4 / C04")
 NA = {}
 m = {"version": 1, "setup_cmd": "./bootstrap.sh",
      "hooks": {"guard": "PANOPTICA_VERIF", "enable": "no hooks in /repo: checks re-import /repo/panoptica from the working tree into a private twin with model modules substituted at import time (pv/twin.py)",
